@@ -33,7 +33,7 @@ def corpus_worlds(pid_dirs=("C05",)):
                 if f.endswith(".json"):
                     try:
                         w = json.load(open(os.path.join(p, f)))
-                        if "workload" in w and "flags" in w:
+                        if "workload" in w and "flags" in w and "known_finding" not in w:
                             w["corpus"] = "%s/%s" % (d, f)
                             out.append(w)
                     except ValueError:
